@@ -3,7 +3,8 @@
 and aggregates their evidence into evidence/C17.json. usage: check_c17.py <tier> <deadline seconds> <build dir> <out root>"""
 import json, os, subprocess, sys, time
 tier, deadline, B, root = sys.argv[1], float(sys.argv[2]), sys.argv[3], sys.argv[4]
-engines = ['search', 'multidim', 'mapped', 'dynamic', 'cabi', 'copymove']
+# cheap engines first; every engine gets its share of the time that is still left, so unused time flows to the expensive ones
+engines = ['mapped', 'copymove', 'cabi', 'multidim', 'dynamic', 'search']
 share = {'search': 0.38, 'multidim': 0.14, 'mapped': 0.05, 'dynamic': 0.2, 'cabi': 0.17, 'copymove': 0.06}
 t0 = time.time()
 agg = {'states': 0, 'transitions': 0, 'traces_validated_against_impl': 0, 'evaluations': 0, 'distinct_nontrivial': 0}
@@ -14,7 +15,9 @@ for e in engines:
     env = dict(os.environ, VERIF_ROOT=out)
     # engines resolve evidence/replays under VERIF_ROOT; replays must end up under the real root so that the VIOLATION line is usable
     log = open(os.path.join(B, 'asan_C17_%s.log' % e), 'w')
-    p = subprocess.run([os.path.join(B, e + '_asan'), '--prop', 'C17', '--tier', tier, '--deadline', str(max(20, deadline * share[e]))], env=env, stdout=subprocess.PIPE, stderr=log, text=True)
+    remaining = max(0.0, deadline - (time.time() - t0))
+    rest = sum(share[x] for x in engines[engines.index(e):])
+    p = subprocess.run([os.path.join(B, e + '_asan'), '--prop', 'C17', '--tier', tier, '--deadline', str(max(20, remaining * share[e] / rest))], env=env, stdout=subprocess.PIPE, stderr=log, text=True)
     for line in p.stdout.splitlines():
         if line.startswith('VIOLATION') or line.startswith('KNOWN-FINDING') or line.startswith('['):
             print(line)
